@@ -64,6 +64,7 @@ int main(int argc, char **argv)
 	if (!init_libTMCG()) return 2;
 	MuteCerr mute;
 	std::string fam = A.get("family", "");
+	if (A.has("as")) A.tier = A.get("as");      // run the (smaller) catalogue of another tier, e.g. the ASan pass of the thorough tier
 	std::vector<Spec> S;
 	try { S = specs(5, A.tier, fam); }
 	catch (std::exception &e) { printf("{\"t\":\"error\",\"what\":\"%s\"}\n", jesc(e.what()).c_str()); return 2; }
